@@ -858,6 +858,7 @@ def install(ex):
         I.assume(normpath_of(r) == r)
         return SStr(r)
     reg("os.path.normpath", p_normpath)
+    reg("posixpath.normpath", p_normpath)
 
     def p_abspath(I, p):
         if not concrete(p):
